@@ -637,6 +637,10 @@ type ClientSet struct {
 	C    map[Kind]*connect.Client[Msg, Msg]
 	Tap  *wire.Tap
 	Base string
+	// CloseTwice makes Do close every stream a second time (the common
+	// `defer stream.Close()` plus an explicit Close): the second result is
+	// ignored, the call must otherwise be unaffected.
+	CloseTwice bool
 }
 
 // NewClientSet builds the four clients over any HTTPClient.
@@ -741,6 +745,9 @@ func (cs *ClientSet) Do(ctx context.Context, kind Kind, id string, hdr http.Head
 		l.Err = st.Err()
 		l.Header, l.Trailer = st.ResponseHeader().Clone(), st.ResponseTrailer().Clone()
 		l.CloseErr = st.Close()
+		if cs.CloseTwice {
+			_ = st.Close()
+		}
 	case Bidi:
 		st := cs.C[kind].CallBidiStream(ctx)
 		setHdr(st.RequestHeader())
@@ -780,6 +787,9 @@ func (cs *ClientSet) Do(ctx context.Context, kind Kind, id string, hdr http.Head
 		}
 		l.TrailerPost = st.ResponseTrailer().Clone()
 		l.CloseErr = st.CloseResponse()
+		if cs.CloseTwice {
+			_ = st.CloseResponse()
+		}
 	}
 	return l
 }
